@@ -673,3 +673,94 @@ Proof.
     rewrite nth_repeat_lt in Hb by lia. exact Hb.
   - split; vm_compute; first [reflexivity | discriminate].
 Qed.
+
+(* ------------------------------------------------------------------------------------------------------
+   The FDR threshold in its fallback branch.  FDRThres returns  x_sorted[0] + 1e-16  when no p-value passes
+   (`level_no_pass`: the scan over the sorted |peak values| finds no p_i <= (i+1)/M q) -- which is what the code
+   does for every step of height <= 1, i.e. on the whole domain of the property (the p-values are computed with
+   the noise estimate as the LOCATION of the normal cdf).  In binary64 the 1e-16 is absorbed exactly when the
+   largest |peak| is >= 1 (`absorb level`, supplied by the harness from the code's floats).  In that regime the
+   bounded-noise theorems need NO assumption on the size of the threshold. *)
+
+(* ANY signal, any weights: a level with two or more peaks, no passing p-value and an unabsorbed 1e-16 keeps no
+   peak; if every level that has a peak at all is of that kind, haarSeg reports no breakpoint. *)
+Theorem C11_fdr_fallback_level : forall (scale_u scale_w : Z -> Q) (pvals : Z -> list Q) (absorb : Z -> bool)
+    (sg : list Q) (wt : option (list Q)) (q : Q) (level : Z),
+  (2 <= length (level_peaks scale_u scale_w sg wt level))%nat ->
+  level_no_pass scale_u scale_w pvals sg wt q level -> absorb level = false ->
+  level_addon scale_u scale_w pvals absorb sg wt q level = [].
+Proof. exact fallback_addon_none. Qed.
+
+Theorem C11_fdr_fallback_none : forall (scale_u scale_w : Z -> Q) (pvals : Z -> list Q) (absorb : Z -> bool)
+    (sg : list Q) (wt : option (list Q)) (q : Q),
+  (forall l, (1 <= l <= 5)%Z -> level_peaks scale_u scale_w sg wt l <> [] ->
+     (2 <= length (level_peaks scale_u scale_w sg wt l))%nat /\
+     level_no_pass scale_u scale_w pvals sg wt q l /\ absorb l = false) ->
+  hr_breaks (haar_seg scale_u scale_w pvals absorb sg wt q) = [].
+Proof. exact fallback_no_breaks. Qed.
+
+(* the noisy step (eps < D / 4, unweighted, >= 32 bins per side) at one level in that regime: the add-on peaks
+   are exactly [t] when the 1e-16 is absorbed or t is the only peak, and nothing otherwise *)
+Theorem C11_noise_level_addon_fallback : forall (scale_u scale_w : Z -> Q) (pvals : Z -> list Q) (absorb : Z -> bool),
+  (forall h, 0 < scale_u h) ->
+  forall (a b : Q) (t n : nat) (sg : list Q) (eps q : Q) (level : Z),
+  noise_within eps (step_signal a b t n) sg -> (32 <= t)%nat -> (t + 32 <= n)%nat ->
+  4 * eps < Qabs (b - a) -> (1 <= level <= 5)%Z ->
+  ((2 <= length (level_peaks scale_u scale_w sg None level))%nat -> level_no_pass scale_u scale_w pvals sg None q level) ->
+  level_addon scale_u scale_w pvals absorb sg None q level =
+  (if (length (level_peaks scale_u scale_w sg None level) <? 2)%nat || absorb level then [Z.of_nat t] else []).
+Proof. exact noisy_step_addon_fallback. Qed.
+
+(* ... hence the whole of haarSeg: exactly the breakpoint t (means within eps of a and b) as soon as one level
+   absorbs the 1e-16 or has t as its only peak; no breakpoint when no level does.  The FDR procedure enters only
+   through "no p-value passes"; nothing is assumed about the value of the threshold. *)
+Theorem C11_noise_step_seg_fallback : forall (scale_u scale_w : Z -> Q) (pvals : Z -> list Q) (absorb : Z -> bool),
+  (forall h, 0 < scale_u h) ->
+  forall (a b : Q) (t n : nat) (sg : list Q) (eps q : Q),
+  noise_within eps (step_signal a b t n) sg -> (32 <= t)%nat -> (t + 32 <= n)%nat ->
+  4 * eps < Qabs (b - a) ->
+  (forall l, (1 <= l <= 5)%Z -> (2 <= length (level_peaks scale_u scale_w sg None l))%nat ->
+     level_no_pass scale_u scale_w pvals sg None q l) ->
+  let r := haar_seg scale_u scale_w pvals absorb sg None q in
+  let T := Z.of_nat t in
+  let N := Z.of_nat n in
+  ((exists l, (1 <= l <= 5)%Z /\
+      ((length (level_peaks scale_u scale_w sg None l) < 2)%nat \/ absorb l = true)) ->
+   hr_breaks r = [T] /\ hr_start r = [0; T]%Z /\ hr_end r = [T - 1; N - 1]%Z /\ hr_size r = [T; N - T]%Z /\
+   exists m1 m2, hr_mean r = [m1; m2] /\ Qabs (m1 - a) <= eps /\ Qabs (m2 - b) <= eps) /\
+  ((forall l, (1 <= l <= 5)%Z ->
+      (2 <= length (level_peaks scale_u scale_w sg None l))%nat /\ absorb l = false) ->
+   hr_breaks r = []).
+Proof. exact noisy_step_seg_fallback. Qed.
+
+(* a flat profile with noise within eps (any positive weights or none) in that regime: one segment 0..n-1 whose
+   mean is within eps of the level *)
+Theorem C11_noise_flat_fallback : forall (scale_u scale_w : Z -> Q) (pvals : Z -> list Q) (absorb : Z -> bool)
+    (eps c : Q) (sg : list Q) (wt : option (list Q)) (q : Q),
+  flat_within eps c sg -> weights_ok sg wt -> sg <> [] ->
+  (forall l, (1 <= l <= 5)%Z -> level_peaks scale_u scale_w sg wt l <> [] ->
+     (2 <= length (level_peaks scale_u scale_w sg wt l))%nat /\
+     level_no_pass scale_u scale_w pvals sg wt q l /\ absorb l = false) ->
+  let n := Zlength_nat sg in
+  let r := haar_seg scale_u scale_w pvals absorb sg wt q in
+  hr_breaks r = [] /\ hr_start r = [0%Z] /\ hr_end r = [(n - 1)%Z] /\ hr_size r = [n] /\
+  exists m, hr_mean r = [m] /\ Qabs (m - c) <= eps.
+Proof. exact noisy_flat_seg_fallback. Qed.
+
+(* the regime is inhabited: with no passing p-value (empty p-value list) the noisy step of C11_noise_step_example is
+   found at 80 when the fallback is absorbed and lost when it is not *)
+Example C11_noise_fallback_example :
+  let noise := map (fun i => match (i mod 3)%nat with O => 1 # 8 | S O => - (1 # 8) | _ => 1 # 16 end) (seq 0 160) in
+  let sg := map (fun p => Qred (fst p + snd p)) (combine (step_signal 0 1 80 160) noise) in
+  let su := fun _ : Z => 2 in
+  let pv := fun _ : Z => @nil Q in
+  (forall l, In l [1; 2; 3; 4; 5]%Z ->
+     level_no_pass su su pv sg None (1 # 10000) l /\ (2 <= length (level_peaks su su sg None l))%nat) /\
+  hr_breaks (haar_seg su su pv (fun _ => true) sg None (1 # 10000)) = [80%Z] /\
+  hr_breaks (haar_seg su su pv (fun _ => false) sg None (1 # 10000)) = [].
+Proof.
+  cbv zeta. split.
+  - intros l Hl. cbn [In] in Hl.
+    repeat (destruct Hl as [<-|Hl]; [split; [vm_compute; reflexivity|vm_compute; lia]|]). destruct Hl.
+  - split; vm_compute; reflexivity.
+Qed.
